@@ -169,7 +169,7 @@ func buildServer(doc *loads.Document, n int, point func(), plans []reqPlan, salt
 	u.RegisterProducer("application/json", &simapi.Producer{W: world, Tag: "json", Inner: runtime.JSONProducer()})
 	u.RegisterProducer("text/plain", &simapi.Producer{W: world, Tag: "text", Inner: nil})
 	mkAuth := func(scheme, header string) *simapi.Auth {
-		return &simapi.Auth{W: world, Scheme: scheme, OnCall: point, Outcome: func(i int, r *http.Request) simapi.AuthOutcome {
+		return &simapi.Auth{W: world, Scheme: scheme, OnCall: point, Outcome: func(i int, r *http.Request, _ []string) simapi.AuthOutcome {
 			v := r.Header.Get(header)
 			switch {
 			case v == "":
